@@ -362,6 +362,7 @@ class History(object):
         self.sortable = rng_.random() < 0.4
         self.storage = rng_.choice(["ram", "ram", "file"])
         self.blocklimit = rng_.choice([2, 4, 16, 128])
+        self.compound = rng_.random() < 0.75
         self.scripted = rng_.random() < 0.3
         self.nsteps = rng_.randint(10, 40)
         self.steps = 0
@@ -376,7 +377,7 @@ class History(object):
 
     def config(self):
         return {"unique": self.mode, "vector": self.vector, "sortable": self.sortable, "storage": self.storage,
-                "blocklimit": self.blocklimit}
+                "blocklimit": self.blocklimit, "compound": self.compound}
 
     def op(self, kind, text):
         self.log.append(text)
@@ -416,7 +417,7 @@ class History(object):
 
     def writer(self, **kw):
         from whoosh.codec.whoosh3 import W3Codec
-        return self.ix.writer(codec=W3Codec(blocklimit=self.blocklimit), **kw)
+        return self.ix.writer(codec=W3Codec(blocklimit=self.blocklimit), compound=self.compound, **kw)
 
     # ---- layout observation (for choosing doc numbers and for the reach pattern)
     def docmap(self, reader):
@@ -517,12 +518,25 @@ class History(object):
         dn = dmap[sn][0]
         self.mark_deleted(sess, [sn], dmap)
         self.op("delete_docnum", "delete_document(%d) [serial %d, segment %d]" % (dn, sn, dmap[sn][1]))
+        before = self.call("writer.deleted_count", w.deleted_count)
         self.call("delete_document", w.delete_document, dn)
         sess.delete([sn])
+        self.writer_view(w, dn, True, before + 1)
         if rng.random() < 0.15:
             self.op("delete_docnum_again", "delete_document(%d) again" % dn)
             self.call("delete_document", w.delete_document, dn)
+            self.writer_view(w, dn, True, before + 1)
         return True
+
+    def writer_view(self, w, dn, deleted, count):
+        """The writer's own view of its pending deletions."""
+        self.ctx.count("c07.api_checks")
+        obs = self.call("writer.is_deleted", lambda: (bool(w.is_deleted(dn)), w.deleted_count(), bool(w.has_deletions())))
+        exp = (deleted, count, count > 0)
+        if obs != exp:
+            self.ctx.fail("c07.read", "writer.is_deleted/deleted_count/has_deletions",
+                          dict(self.wit(), docnum=dn, expected=exp, observed=obs))
+            raise Stop()
 
     def do_undelete(self, w, sess):
         rng, m = self.rng, self.m
@@ -548,8 +562,10 @@ class History(object):
         if mine and (not old or rng.random() < 0.6):
             sn = rng.choice(sorted(mine))
             self.op("undelete", "delete_document(%d, delete=False) [serial %d deleted by this writer]" % (dmap[sn][0], sn))
+            before = self.call("writer.deleted_count", w.deleted_count)
             self.call("delete_document(delete=False)", w.delete_document, dmap[sn][0], delete=False)
             sess.vis[sn] = sess.gone.pop(sn)
+            self.writer_view(w, dmap[sn][0], False, before - 1)
             return True
         if old:
             sn = rng.choice(sorted(old))
@@ -938,7 +954,7 @@ class History(object):
 def run(ctx):
     from vf import model
     model.check_analysis()
-    for idx in ctx.cases(quick=48, thorough=300):
+    for idx in ctx.cases(quick=48, thorough=240):
         rng = ctx.rng(idx)
         ctx.reseed_global(idx)
         h = History(ctx, rng, idx)
